@@ -34,6 +34,9 @@ def norm_payload(pl) -> frozenset:
     return frozenset(p for p in pl if p in ("effect", "pending") or p.startswith("kw:"))
 
 
+NEST = ("NEST",)  # marker element of a list kind: some elements sit in a nested list
+
+
 def payload_of(d) -> frozenset:
     k = d[0]
     if k == "E":
@@ -65,7 +68,7 @@ def short(d) -> str:
     if k == "R":
         return f"raw Tree({d[1]})"
     if k == "L":
-        return "list[" + ", ".join(sorted(short(x) for x in d[1])) + "]"
+        return ("nested " if NEST in d[1] else "") + "list[" + ", ".join(sorted(short(x) for x in d[1] if x != NEST)) + "]"
     return {"S": "str", "N": "None", "V": "ValueType"}.get(k, k)
 
 
@@ -130,7 +133,10 @@ class KindEngine:
         if k == "R":
             return AObj("Tree", {"data": d[1], "children": []}, label=label, origin=label)
         if k == "L":
-            return [self.mk(r, x, f"{label}.{i}") for i, x in enumerate(sorted(d[1], key=str))]
+            flat = [self.mk(r, x, f"{label}.{i}") for i, x in enumerate(sorted((x for x in d[1] if x != NEST), key=str))]
+            if NEST in d[1] and flat:
+                return [flat[:-1], flat[-1]] if len(flat) > 1 else [flat]
+            return flat
         raise AnalysisError(f"kind {d}")
 
     def classify(self, v, carried=None):
@@ -145,7 +151,8 @@ class KindEngine:
             for x in v:
                 d = self.classify(x, carried)
                 if d[0] == "L":
-                    elems |= set(d[1])  # nested statement lists are flattened at every use site
+                    elems |= set(d[1])
+                    elems.add(NEST)  # the list is nested: a use site has to flatten it (left-recursive list rules return [[...], item])
                 else:
                     elems.add(d)
             return ("L", frozenset(elems))
@@ -344,6 +351,13 @@ class KindEngine:
                     flushed = e[2].fields.get("flushed")
                     for pos, x in enumerate(lst):
                         d = self.classify(x, carried)
+                        if isinstance(x, (list, tuple)):
+                            # Sequence only keeps Effect instances: a list handed over as one element is dropped as a whole
+                            content = sorted(p for p in payload_of(d) if p in ("effect", "pending") or p.startswith("kw:"))
+                            if content:
+                                k = f"{name}: Sequence element: nested statement list is not an Effect"
+                                self.findings.setdefault(k, Finding("D2", k, f"the statements of a nested list are dropped (content: {content}); the list has to be flattened first", where))
+                            continue
                         if d[0] == "H" and ((flushed == "SEQ_THEN_HYB" and pos == len(lst) - 1) or (flushed == "HYB_THEN_SEQ" and pos == 0)):
                             continue  # its pending effect is sequenced right next to it by the flush of this very sequence
                         self._discard(f"{name}: Sequence element", d, where)
